@@ -192,7 +192,9 @@ def run_tables(chk, prop, n_scenes, families=FAMILIES):
     for (res, task, w), ans in zip(owners, answers):
         a = scenes.parse_met_answer(ans)
         if a['bad']:
-            raise common.InfraError(f'driver rejected a request for scene {task} {w}: {ans[:200]}')
+            chk.mismatch('what the implementation produced cannot be expressed as a model request (driver: bad-request)', f'{w}: {ans[:200]}',
+                         {'gen': {'seed': chk.seed, 'k': task[1], 'family': res['meta']['family']}, 'which': w})
+            continue
         per_scene.setdefault(task, []).append((w, a))
     for res, task in zip(results, tasks):
         fam = res['meta']['family']
